@@ -639,6 +639,10 @@ func init() {
 	stubs["strings.TrimSpace"] = conc1(strings.TrimSpace)
 	stubs["path/filepath.Base"] = conc1(filepath.Base)
 	stubs["path/filepath.Clean"] = conc1(filepath.Clean)
+	stubs["path/filepath.Ext"] = conc1(filepath.Ext)
+	stubs["path/filepath.Dir"] = conc1(filepath.Dir)
+	stubs["path.Ext"] = conc1(path.Ext)
+	stubs["path.Dir"] = conc1(path.Dir)
 	stubs["path.Clean"] = conc1(path.Clean)
 	stubs["path.Base"] = conc1(path.Base)
 	stubs["strings.ToUpper"] = conc1(strings.ToUpper)
